@@ -7,3 +7,10 @@ Theorem c18_countmin_image_size :
   forall s, length (cm_counts s) = N.to_nat (cm_nh s * cm_nb s) ->
   length (cm_serialize s) = if cm_is_empty s then 16%nat else (16 + 8 + 8 * N.to_nat (cm_nh s * cm_nb s))%nat.
 Proof. exact image_size. Qed.
+
+(* non-vacuity: a 2 x 3 sketch: 16 bytes when empty, 16 + 8 + 8 * 6 = 72 bytes otherwise, whatever its counters *)
+Example c18_countmin_example :
+  length (cm_serialize (mkCm 2 3 255 7 0 [0; 0; 0; 0; 0; 0])) = 16%nat /\
+  length (cm_serialize (mkCm 2 3 255 7 8 [5; 0; 3; 0; 7; 1])) = 72%nat /\
+  length (cm_serialize (mkCm 2 3 255 7 255 [255; 0; 255; 0; 255; 0])) = 72%nat.
+Proof. vm_compute. repeat split. Qed.
